@@ -334,8 +334,16 @@ fn bin_for(profile: &str) -> String {
 pub fn run_jobs(profile: &str, jobs: &[Job], watchdog: Duration) -> Result<Vec<JobResult>, String> {
     let mut results: Vec<JobResult> = vec![];
     let mut next = 0usize;
+    let mut hangs = 0usize;
     let bin = bin_for(profile);
     while next < jobs.len() {
+        if hangs >= 2 {
+            // two runs of this shard already never returned: the rest is not worth a
+            // watchdog period each (the hangs are reported; these are not judged)
+            results.push(JobResult { id: jobs[next].id, yields: 0, calls: 0, outcome: "inconclusive_slow".to_string() });
+            next += 1;
+            continue;
+        }
         let mut child = Command::new(&bin)
             .arg("c08-child")
             .stdin(Stdio::piped())
@@ -406,6 +414,7 @@ pub fn run_jobs(profile: &str, jobs: &[Job], watchdog: Duration) -> Result<Vec<J
         let outcome = if hung && soft {
             "inconclusive_slow".to_string()
         } else if hung {
+            hangs += 1;
             "hang".to_string()
         } else {
             #[cfg(unix)]
@@ -1023,7 +1032,7 @@ pub fn run(tier: &str) -> i32 {
         "the wall-clock watchdog (oracle 'hang') is the only place real time is read; it is >= 120 s per run and runs are sized to finish in about a second".into(),
         "stack overflow is detected as death of the child by signal (Rust aborts); replay compares the failure class, not a byte-exact log".into(),
     ];
-    let watchdog = Duration::from_secs(if quick { 180 } else { 900 });
+    let watchdog = Duration::from_secs(if quick { 120 } else { 600 });
     let mut all_results: BTreeMap<String, (usize, usize)> = BTreeMap::new();
     let mut first_by_key: BTreeMap<(String, String), (Job, JobResult, String, u64)> = BTreeMap::new();
     let mut count_by_key: BTreeMap<(String, String), u64> = BTreeMap::new();
